@@ -618,6 +618,10 @@ def mem_alphabet(mode, size, flavor, vsib=None, n=1, bcst=None, wide_abs=False):
             add("abs=0xffffffff80000000", base="abs", disp=0xFFFFFFFF80000000)
             add("abs64", base="abs", disp=0x1122334455)
             add("abs-addr-abs", base="abs", disp=0x1000, addr=1)
+            # uint32 addresses that do not survive the sign extension of disp32: the assembler inserts 0x67 after the opcode is out
+            add("abs-addr-abs=0xfffffff0", base="abs", disp=0xFFFFFFF0, addr=1)
+            add("abs-addr-abs=0x80000000", base="abs", disp=0x80000000, addr=1)
+            add("abs-fs=0xfffffff0", base="abs", disp=0xFFFFFFF0, seg=5)
             add("abs-addr-rel", base="abs", disp=0x1000, addr=2)
         add("abs-fs", base="abs", disp=0x28, seg=5)
         # 7. rip-relative
